@@ -830,6 +830,9 @@ func instrDominates(a, b ssa.Instruction) bool {
 		if s := curProg.HelperSite(a.Parent()); s != nil && s.Parent() == b.Parent() && belowScopeRoot(a.Parent()) {
 			all := true
 			for _, blk := range a.Parent().Blocks {
+				if blk == a.Parent().Recover {
+					continue // reached only after a recovered panic in a function with defer
+				}
 				if _, isRet := blk.Instrs[len(blk.Instrs)-1].(*ssa.Return); isRet && !(a.Block() == blk || a.Block().Dominates(blk)) {
 					all = false
 				}
@@ -874,6 +877,21 @@ func forEachCallD(fn *ssa.Function, f func(site ssa.CallInstruction), depth int)
 				if _, isCall := ci.(*ssa.Call); isCall {
 					if h := curProg.TransparentHelper(ci); h != nil && h != fn {
 						forEachCallD(h, f, depth+1)
+						// a function literal handed to the helper (template method: "forEachX(func(x) {…})") runs as part of it
+						for _, a := range ci.Common().Args {
+							var lit *ssa.Function
+							switch x := a.(type) {
+							case *ssa.MakeClosure:
+								lit, _ = x.Fn.(*ssa.Function)
+							case *ssa.Function:
+								if x.Parent() == fn {
+									lit = x
+								}
+							}
+							if lit != nil && lit.Blocks != nil {
+								forEachCallD(lit, f, depth+1)
+							}
+						}
 					}
 				}
 			}
